@@ -100,6 +100,10 @@ func (t *tsa) ServeHTTP(rw http.ResponseWriter, r *http.Request) {
 		o.Status, o.OmitToken = 2, true
 	case "waiting":
 		o.Status, o.OmitToken = 3, true
+	case "revocationWarning": // a non-granting status shipped together with an otherwise perfect token
+		o.Status = 4
+	case "statusUnknown":
+		o.Status = 7
 	case "badTokenSig":
 		o.CorruptSig = true
 	case "noCert":
